@@ -163,3 +163,49 @@ func VerifC02_decide_flatten_unflatten() {
 		"C02/decide/unflatten-iff-input-flat-output-nests-and-chain-does-not-end-in-flatten")
 	verifReach("C02/decide/end")
 }
+
+// named separators: every documented alias (the table of reference-main-separators.md, copied here as
+// the specification), given to any of the separator flags — the one-sided --ifs/--ofs/--ips/--ops/
+// --irs/--ors and the two-sided --fs/--ps/--rs — selects exactly the separator its literal value
+// selects, on every side the flag covers.
+func VerifC02_separator_aliases() {
+	type alias struct{ name, value string }
+	aliases := []alias{
+		{"ascii_esc", "\x1b"}, {"ascii_etx", "\x03"}, {"ascii_fs", "\x1c"}, {"ascii_gs", "\x1d"}, {"ascii_null", "\x00"},
+		{"ascii_rs", "\x1e"}, {"ascii_soh", "\x01"}, {"ascii_stx", "\x02"}, {"ascii_us", "\x1f"}, {"asv_fs", "\x1f"}, {"asv_rs", "\x1e"},
+		{"colon", ":"}, {"comma", ","}, {"cr", "\r"}, {"crcr", "\r\r"}, {"crlf", "\r\n"}, {"crlfcrlf", "\r\n\r\n"}, {"equals", "="},
+		{"lf", "\n"}, {"lflf", "\n\n"}, {"newline", "\n"}, {"pipe", "|"}, {"semicolon", ";"}, {"space", " "}, {"tab", "\t"},
+		{"usv_fs", "\xe2\x90\x9f"}, {"usv_rs", "\xe2\x90\x9e"},
+	}
+	a := aliases[verifChoice("alias", len(aliases))]
+	flags := []string{"--ifs", "--ofs", "--ips", "--ops", "--irs", "--ors", "--fs", "--ps", "--rs"}
+	flag := flags[verifChoice("flag", len(flags))]
+	// DKVP uses all three kinds of separator on both sides
+	byName, ok1 := c02ParseOne([]string{"--idkvp", "--odkvp", flag, a.name})
+	verifAssert(ok1, "C02/aliases/alias-accepted")
+	if !ok1 {
+		return
+	}
+	r, w := &byName.ReaderOptions, &byName.WriterOptions
+	switch flag {
+	case "--ifs":
+		verifAssert(r.IFS == a.value, "C02/aliases/input-side")
+	case "--ofs":
+		verifAssert(w.OFS == a.value, "C02/aliases/output-side")
+	case "--ips":
+		verifAssert(r.IPS == a.value, "C02/aliases/input-side")
+	case "--ops":
+		verifAssert(w.OPS == a.value, "C02/aliases/output-side")
+	case "--irs":
+		verifAssert(r.IRS == a.value, "C02/aliases/input-side")
+	case "--ors":
+		verifAssert(w.ORS == a.value, "C02/aliases/output-side")
+	case "--fs":
+		verifAssert(r.IFS == a.value && w.OFS == a.value, "C02/aliases/two-sided-flag-sets-both-sides")
+	case "--ps":
+		verifAssert(r.IPS == a.value && w.OPS == a.value, "C02/aliases/two-sided-flag-sets-both-sides")
+	case "--rs":
+		verifAssert(r.IRS == a.value && w.ORS == a.value, "C02/aliases/two-sided-flag-sets-both-sides")
+	}
+	verifReach("C02/aliases/end")
+}
